@@ -296,6 +296,18 @@ def oracle(prop, run):
         for t_, evs in starts.items():
             if tasks.get(t_, {}).get("state") == "CANCELLED":
                 yield ("C07 cancelled-task-was-started", {"task": t_})
+    if prop == "C16":
+        last = None
+        for e in mon:
+            if e["ev"] != "pop":
+                continue
+            if e["earlier_left"]:
+                yield ("C16 popped-event-is-not-the-earliest-queued", {"popped": [e["time"], e["type"]], "still_queued": e["earlier_left"]})
+                break
+            if last is not None and e["time"] < last:
+                yield ("C16 pop-times-decrease", {"popped": [e["time"], e["type"]], "previous": last})
+                break
+            last = e["time"]
     if prop == "C18":
         for e in mon:
             if e["ev"] != "offer":
